@@ -116,6 +116,7 @@ func runC04(p *eng.Prog, r *eng.Report, tier string) {
 	deadlineWatchersArmedAtOnce(c, "C04.12")
 	c04ExpiredDeadlineIsInThePast(c, "C04.4")
 	c04AdaptersReportEveryFault(c, "C04.13")
+	resultUsedBeforeErrorTest(c, "C04.14", neg)
 	c04NoPanic(c, neg)
 	// a fault that panics is not "failing closed": decoder API misuse that
 	// panics on a peer's stream error (C04.6)
@@ -980,4 +981,119 @@ func c04AdaptersReportEveryFault(c *cx, id string) {
 		}
 		c.r.Check(id, f, "one wrapped "+f.Decl.Name.Name+" per call", "O: no path of the adapter performs two operations of the wrapped connection (data is never written or consumed twice)", f.Pos(), bad == "", bad)
 	}
+}
+
+// resultUsedBeforeErrorTest (C04.14): a function of the negotiation set that
+// returns (p, err) with p nil on its error returns is used as "if err != nil
+// { return }" before p is touched. A dereference of p (field access through
+// the pointer, index) that is reachable from the call without crossing the
+// edge "err == nil" panics for exactly the inputs that make the callee fail -
+// a peer that cuts the stream inside <stream:features/> - instead of failing
+// the negotiation.
+func resultUsedBeforeErrorTest(c *cx, id string, fns []*eng.Fn) {
+	n := 0
+	// callees (repository functions) that return a nil pointer with an error
+	nilOnError := func(callee *eng.Fn, ri int) bool {
+		if callee == nil || callee.Body == nil {
+			return false
+		}
+		g := callee.Graph()
+		for _, rs := range g.Returns {
+			if len(rs.Results) <= ri {
+				continue
+			}
+			if g.RetKindOf(rs) == eng.RetSuccess {
+				continue
+			}
+			rp, _ := g.Where(rs)
+			if idn, ok := ast.Unparen(rs.Results[ri]).(*ast.Ident); ok && idn.Name == "nil" {
+				return true
+			}
+			if g.NilnessOf(rs.Results[ri], rp) == -1 {
+				return true
+			}
+		}
+		return false
+	}
+	for _, f := range fns {
+		if f.Body == nil {
+			continue
+		}
+		g := f.Graph()
+		f.WalkBody(func(nd ast.Node) bool {
+			as, ok := nd.(*ast.AssignStmt)
+			if !ok || len(as.Rhs) != 1 || len(as.Lhs) < 2 {
+				return true
+			}
+			cl, ok := ast.Unparen(as.Rhs[0]).(*ast.CallExpr)
+			if !ok {
+				return true
+			}
+			callee := c.p.FnOf(calleeFunc(f, cl))
+			if callee == nil {
+				return true
+			}
+			ev := rootLocal(f, as.Lhs[len(as.Lhs)-1])
+			if ev == nil || eng.TypeStr(ev.Type()) != "error" {
+				return true
+			}
+			ap, okp := g.Where(as)
+			if !okp {
+				return true
+			}
+			for ri, l := range as.Lhs[:len(as.Lhs)-1] {
+				pv := rootLocal(f, l)
+				if pv == nil {
+					continue
+				}
+				if _, isPtr := pv.Type().Underlying().(*types.Pointer); !isPtr {
+					continue
+				}
+				if _, isID := ast.Unparen(l).(*ast.Ident); !isID || !nilOnError(callee, ri) {
+					continue
+				}
+				n++
+				// edges that establish err == nil for this call
+				cut := eng.Cut{}
+				forms := append(g.VarForms(ev), f.Norm(cl, &ap)+"#"+itoa(len(as.Lhs)-1))
+				for _, fm := range forms {
+					for _, ce := range g.EdgesMatching("eq(" + fm + ",nil)") {
+						// only tests that come after this call (the variable is
+						// reused: an earlier test of it is about an earlier call)
+						if g.Reachable(g.After(ap), eng.Point{B: ce.E.B, I: 0}, nil, nil) || ce.E.B == ap.B {
+							cut[ce.E] = true
+						}
+					}
+				}
+				bad := ""
+				f.WalkBody(func(m ast.Node) bool {
+					sel, ok := m.(*ast.SelectorExpr)
+					if !ok {
+						return true
+					}
+					idn, ok := ast.Unparen(sel.X).(*ast.Ident)
+					if !ok || f.Info().ObjectOf(idn) != types.Object(pv) {
+						return true
+					}
+					if s2, ok := f.Info().Selections[sel]; !ok || s2.Kind() != types.FieldVal {
+						return true
+					}
+					up, ok := g.Where(sel)
+					if !ok {
+						return true
+					}
+					// does the (possibly nil) definition reach the use without passing err == nil?
+					for _, d := range g.ReachingDefsCut(pv, up, cut) {
+						if d.Node == ast.Node(as) && g.Reachable(g.After(ap), up, cut, nil) {
+							bad = "field " + sel.Sel.Name + " of the result is read at " + c.p.Pos(sel.Pos()) + " on a path that has not established that the error is nil"
+						}
+					}
+					return true
+				})
+				c.r.Check(id, f, "result of "+f.CalleeID(cl)+" used only after its error was tested", "G: a pointer result that is nil on the callee's error returns is dereferenced only behind the edge err == nil", as.Pos(), bad == "", bad+": a failing "+f.CalleeID(cl)+" panics the negotiation instead of failing it")
+			}
+			return true
+		})
+	}
+	c.r.Floor(id, "pointer results with an error in the scope", n, 1)
 }
